@@ -27,6 +27,7 @@ pub fn gen_library(r: &mut Rng, with_known_features: bool) -> Vec<(String, Strin
     keys.iter()
         .map(|k| {
             let mut p = hist::profile_for(&all, k, true);
+            p.table_markup = with_known_features;
             p.inline_note_links = with_known_features || !k.contains('/');
             p.max_blocks = 6;
             let mut text;
@@ -186,7 +187,22 @@ pub fn run(ctx: &Ctx, model: &mut Model, rep: &mut Report) {
         let mut r = Rng::for_case(ctx.seed ^ 0xC05, i as u64);
         // every 8th library carries the features of the known findings (attribution stream)
         let wild = i % 8 == 7;
-        let lib = gen_library(&mut r, wild);
+        let mut lib = gen_library(&mut r, wild);
+        if i % 5 == 1 && lib.len() >= 3 {
+            // fan-in: one note links once, a later one several times, to the same target (an index that is
+            // merged per target must keep the links of both)
+            let t = lib[0].0.clone();
+            for (j, n) in [1usize, 3].iter().enumerate() {
+                let dir = Key::from_file_name(&lib[j + 1].0).parent();
+                let url = md::rel_url(&t, &dir);
+                for _ in 0..*n {
+                    lib[j + 1].1.push_str(&format!("\n[fan]({})\n", url));
+                }
+                if dir.is_empty() {
+                    lib[j + 1].1.push_str(&format!("\nsee [fan in text]({}) here\n", url));
+                }
+            }
+        }
         let text = format!("{:?}", lib);
         rep.case(&text, text.contains("]("));
         if i < 1 {
